@@ -17,9 +17,9 @@ void cstl_raw_array_reverse(void * const arr,
                             cstl_swap_func_t * const swap,
                             void * const t)
 {
-    int i, j;
+    ssize_t i, j;
 
-    for (i = 0, j = count - 1; i < j; i++, j--) {
+    for (i = 0, j = (ssize_t)count - 1; i < j; i++, j--) {
         swap(__cstl_raw_array_at(arr, size, i),
              __cstl_raw_array_at(arr, size, j),
              t,
@@ -33,10 +33,10 @@ ssize_t cstl_raw_array_search(const void * const arr,
                               cstl_compare_func_t * const cmp,
                               void * const priv)
 {
-    int i, j;
+    ssize_t i, j;
 
-    for (i = 0, j = count - 1; i <= j;) {
-        const int n = (i + j) / 2;
+    for (i = 0, j = (ssize_t)count - 1; i <= j;) {
+        const ssize_t n = i + (j - i) / 2;
         const int eq = cmp(ex, __cstl_raw_array_at(arr, size, n), priv);
 
         if (eq == 0) {
